@@ -8,4 +8,5 @@ pub mod bpt;
 pub mod compaction;
 pub mod engine;
 pub mod oracle;
+pub mod table;
 pub mod wal;
